@@ -97,6 +97,7 @@ K_DEFER_EQUAL = "C06:defer_measurements-takes-mid-circuit-measurement-for-termin
 K_FRONTIER = "C06:unroll-greedy-frontier-ignores-measurement-key-dependencies"
 K_DEFER_UNSAT = "C06:defer_measurements-crashes-on-a-condition-no-record-satisfies(empty-SumOfProducts)"
 K_DEFER_BITMASK = "C06:defer_measurements-ignores-the-index-of-a-BitMaskKeyCondition"
+K_MERGE_KEYS = "C06:merge-operations-decides-on-qubits-alone(key-carrying-op-moved-across-its-dependent)"
 
 
 def _defer_condition_facts():
@@ -1269,6 +1270,31 @@ def sec_primitives(ctx, rng, case_no):
     o = go("merge_operations_to_circuit_op", lambda c, t: TP.merge_operations_to_circuit_op(c, can, merged_circuit_op_tag="c06-merged", **kwargs(t)), v, "unitary<=%dq" % mq)
     if o is not None and "tags" in v:
         _check_not_merged_across(ctx, "merge_operations_to_circuit_op", circ, o, _wit(case, context=v))
+    # merging whatever is connected (measurements and classically controlled operations included): wrapping two operations
+    # into one sub-circuit is locally meaning-preserving, so the primitive has to keep the rest of the program in order
+    v = pick()
+    can_any = lambda l, r_: len({q for x in list(l) + list(r_) for q in x.qubits}) <= mq  # noqa
+    keyless = lambda x: not cirq.measurement_key_objs(x) and not cirq.control_keys(x)  # noqa
+    can_keyless = lambda l, r_: can_any(l, r_) and all(keyless(x) for x in list(l) + list(r_))  # noqa
+
+    def judge_merge_any(o):
+        w2 = _wit(case, transformer="merge_operations_to_circuit_op", optionset="any<=%dq" % mq, context=v)
+        if _satisfies(case, o):
+            return _judge_any(ctx, case, "merge_operations_to_circuit_op", o, w2)
+        # explained-by test for the known finding: merging is decided on qubits alone; when the same call restricted to
+        # operations without measurement/control keys is fine, the deviation comes from a key-carrying operation that was
+        # moved across an operation depending on its key
+        try:
+            alt = TP.merge_operations_to_circuit_op(circ, can_keyless, merged_circuit_op_tag="c06-merged", **kwargs(_tctx(v)))
+            explained = _satisfies(case, alt)
+        except Exception:  # noqa
+            explained = False
+        mech = K_MERGE_KEYS if explained else None
+        a = judge_distribution(ctx, case, "merge_operations_to_circuit_op", o, w2, mech=mech)
+        b = judge_state(ctx, case, "merge_operations_to_circuit_op", o, w2, mech=mech)
+        return a and b
+    go("merge_operations_to_circuit_op", lambda c, t: TP.merge_operations_to_circuit_op(c, can_any, merged_circuit_op_tag="c06-merged", **kwargs(t)), v, "any<=%dq" % mq,
+       judge_fn=judge_merge_any if kind == "measured" else None)
     v = pick()
     k = int(rng.integers(1, 4))
     o = go("merge_k_qubit_unitaries_to_circuit_op", lambda c, t: TP.merge_k_qubit_unitaries_to_circuit_op(c, k, merged_circuit_op_tag="c06-merged-k", **kwargs(t)), v, "k=%d" % k)
